@@ -40,6 +40,10 @@ EVIDENCE_DIR = os.path.join(VERIF_ROOT, "evidence")
 REPLAY_DIR = os.environ.get("QSIM_REPLAY_DIR") or os.path.join(VERIF_ROOT, "replays")
 
 
+MAX_MINIMISED = 3    # violation classes per run that get a minimised replay file
+MAX_REPORTED = 8     # violation classes per run that get a replay file at all
+
+
 class HarnessError(Exception):
     """Something is wrong with the simulator itself - never a VIOLATION."""
 
@@ -336,7 +340,7 @@ def minimise(engine, case, prop, v, budget=None, wall_s=None):
     if moves is None:
         return case, 0
     budget = budget or getattr(engine, "SHRINK_BUDGET", 120)
-    wall_s = wall_s or getattr(engine, "SHRINK_WALL_S", 90)
+    wall_s = wall_s or getattr(engine, "SHRINK_WALL_S", 60)
     t0 = time.time()
     steps = 0
     improved = True
@@ -508,6 +512,8 @@ def run_check(prop, engine_name, tier, seed, jobs, level, extra_evidence=None):
     exit_code = 0
     n_known = 0
     n_viol = 0
+    n_reported = 0
+    skipped = []
     for fp in sorted(by_fp):
         i, v = by_fp[fp][0]
         k = match_known(known, prop, v)
@@ -518,11 +524,20 @@ def run_check(prop, engine_name, tier, seed, jobs, level, extra_evidence=None):
                   flush=True)
             continue
         n_viol += 1
+        if n_reported >= MAX_REPORTED:
+            # enough replay files for one run; the remaining classes are only named
+            skipped.append("%s/%s(%d)" % (fp[0], fp[1], len(by_fp[fp])))
+            exit_code = 1
+            continue
         reported = False
         last_out = ""
         for i, v in by_fp[fp][:6]:
             case = cases[i]
-            small, steps = minimise(engine, case, prop, v)
+            # the first few classes get a minimised replay, the others the case as found
+            if n_reported < MAX_MINIMISED:
+                small, steps = minimise(engine, case, prop, v)
+            else:
+                small, steps = case, 0
             for cand in ([small, case] if small is not case else [case]):
                 vv = v
                 rr = run_case_forked(engine, cand)
@@ -537,6 +552,7 @@ def run_check(prop, engine_name, tier, seed, jobs, level, extra_evidence=None):
                           flush=True)
                     print("VIOLATION property=%s replay=%s" % (prop, path), flush=True)
                     reported = True
+                    n_reported += 1
                     break
                 os.unlink(path)
             if reported:
@@ -547,6 +563,10 @@ def run_check(prop, engine_name, tier, seed, jobs, level, extra_evidence=None):
                   % (prop, fp[0], fp[1], last_out[-1500:]), flush=True)
             return 2
         exit_code = 1
+
+    if skipped:
+        print("  further violation classes of this run (no replay file written): %s"
+              % ", ".join(skipped[:40]), flush=True)
 
     # ---- determinism self-test (fresh interpreter, other hash seed)
     det_n = min(len(cases), getattr(engine, "DETERMINISM_SAMPLE", {}).get(tier, 6))
